@@ -26,6 +26,7 @@
  *   M <s|c> <max> <hexstream> <cuts> | msg <valuetokens> <restlen> | rejected <restlen> | err <code> <restlen> | eof
  *        one iteration of JsonRpcConnection::HandleIncomingMessages over the TLS connection:
  *        JsonRpc::ReadMessage, JsonRpc::DecodeMessage, message->Get("method")
+ *   U <hexbytes> | <hex of Utility::ValidateUTF8(bytes)>          the UTF-8 sanitising step on arbitrary bytes
  *   X <signal> <operation line>       printed by the parent: the child died (signal; 0 = exit code != 0, 14 = hang)
  *        while processing that operation
  *
@@ -286,11 +287,15 @@ struct Tls {
 
 static Tls *l_Tls;
 
-static void Render(const Value& v, std::string& out);
+static void Render(const Value& v, std::string& out, int depth = 0);
 
 /* decode = false: T line (frame layer only); decode = true: M line (ReadMessage + DecodeMessage + use of the result) */
 static void DoTls(char variant, long long max, const std::string& hex, const std::string& cuts, bool decode = false)
 {
+	/* sanitizer pass: ASan cannot follow exceptions thrown on Boost coroutine stacks (google/sanitizers#189,
+	 * "False positive error reports may follow"), so the coroutine variant is replaced by the synchronous one there */
+	static const bool noCoro = getenv("C20_NO_CORO") != nullptr;
+	if (noCoro && variant == 'c') variant = 's';
 	if (l_Emit) { Emit(std::string(decode ? "M " : "T ") + variant + " " + std::to_string(max) + " " + hex + " " + cuts); return; }
 	std::string bytes;
 	if (!UnHex(hex, bytes)) { fprintf(stderr, "bad hex\n"); _exit(2); }
@@ -378,9 +383,11 @@ static void DoTls(char variant, long long max, const std::string& hex, const std
 
 /* ---------------------------------------------------------------- JSON */
 
-static void Render(const Value& v, std::string& out)
+static void Render(const Value& v, std::string& out, int depth)
 {
 	if (!out.empty()) out += ',';
+	/* the harness's own recursion must not be what overflows the stack on deeply nested values */
+	if (depth > 3000) { out += '?'; return; }
 	if (v.GetType() == ValueEmpty) { out += 'z'; return; }
 	if (v.IsBoolean()) { out += v.ToBool() ? 't' : 'f'; return; }
 	if (v.IsNumber()) {
@@ -406,7 +413,7 @@ static void Render(const Value& v, std::string& out)
 		Array::Ptr a = v;
 		ObjectLock olock(a);
 		out += 'a' + std::to_string(a->GetLength());
-		for (const Value& e : a) Render(e, out);
+		for (const Value& e : a) Render(e, out, depth + 1);
 		return;
 	}
 	if (v.IsObjectType<Dictionary>()) {
@@ -416,7 +423,7 @@ static void Render(const Value& v, std::string& out)
 		for (const Dictionary::Pair& kv : d) {
 			std::string h = Hex(kv.first.GetData());
 			out += ",k" + (h == "-" ? std::string() : h);
-			Render(kv.second, out);
+			Render(kv.second, out, depth + 1);
 		}
 		return;
 	}
@@ -499,6 +506,16 @@ static void DoJsonText(const std::string& hex)
 		obs = "err";
 	}
 	printf("K %s | %s\n", hex.c_str(), obs.c_str());
+}
+
+/* Utility::ValidateUTF8 (utility.cpp:1782-1794) on arbitrary bytes */
+static void DoUtf8(const std::string& hex)
+{
+	if (l_Emit) { Emit("U " + hex); return; }
+	std::string raw;
+	if (!UnHex(hex, raw)) { fprintf(stderr, "bad hex\n"); _exit(2); }
+	String out = Utility::ValidateUTF8(String(raw));
+	printf("U %s | %s\n", hex.c_str(), Hex(out.GetData()).c_str());
 }
 
 /* JsonRpc::DecodeMessage (jsonrpc.cpp:147-157) on one payload */
@@ -595,7 +612,37 @@ static String GenString(Rng& r)
 	std::string s;
 	int n = r.below(4) == 0 ? 0 : (int)r.below(r.below(10) == 0 ? 60 : 8);
 	for (int i = 0; i < n; i++) PutUtf8(s, GenCp(r));
+	if (r.below(12) == 0 && !s.empty()) {
+		/* ill-formed UTF-8 (sanitised to U+FFFD by the encoder): stray trail/lead bytes, truncation, overlongs, surrogates */
+		static const char *bad[] = { "\x80", "\xbf", "\xc0\x80", "\xc1\xbf", "\xe0\x80\x80", "\xed\xa0\x80", "\xed\xbf\xbf", "\xf4\x90\x80\x80",
+			"\xf5\x80\x80\x80", "\xf8", "\xff", "\xfe", "\xc3", "\xe2\x82", "\xf0\x9f\x98", "\xe2\x28\xa1", "\xf0\x28\x8c\xbc", "\xc3\xc3\xa9" };
+		int k = 1 + (int)r.below(2);
+		for (int i = 0; i < k; i++) {
+			switch (r.below(3)) {
+				case 0: s.insert(r.below(s.size() + 1), bad[r.below(sizeof bad / sizeof *bad)]); break;
+				case 1: s.resize(1 + r.below(s.size())); break;               /* may cut inside a sequence */
+				default: s[r.below(s.size())] = (char)(0x80 + r.below(0x80)); break;
+			}
+		}
+	}
 	return String(s);
+}
+
+static std::string GenUtf8Hostile(Rng& r)
+{
+	static const char *fixed[] = { "", "a", "\x7f", "\x80", "\xbf", "\xc0", "\xc0\x80", "\xc1\xbf", "\xc2", "\xc2\x80", "\xdf\xbf", "\xe0\x80\x80", "\xe0\x9f\xbf",
+		"\xe0\xa0\x80", "\xed\x9f\xbf", "\xed\xa0\x80", "\xed\xbf\xbf", "\xee\x80\x80", "\xef\xbf\xbd", "\xef\xbf\xbf", "\xf0\x80\x80\x80", "\xf0\x8f\xbf\xbf",
+		"\xf0\x90\x80\x80", "\xf4\x8f\xbf\xbf", "\xf4\x90\x80\x80", "\xf5\x80\x80\x80", "\xf7\xbf\xbf\xbf", "\xf8\x88\x80\x80\x80", "\xfc\x84\x80\x80\x80\x80",
+		"\xfe", "\xff", "\xe2\x82", "\xe2", "\xf0\x9f\x98", "\xf0\x9f", "\xf0", "\xe2\x28\xa1", "\xe2\x82\x28", "\xf0\x28\x8c\xbc", "\xf0\x90\x28\xbc",
+		"\xf0\x28\x8c\x28", "a\x80\x80\x80z", "\xc3\xa9\x80", "\x80\xc3\xa9", "\xc3\xc3\xa9", "\xe2\x82\xe2\x82\xac", "\xed\xa0\x80\xed\xb0\x80", "ab\xc3" };
+	std::string s;
+	switch (r.below(5)) {
+		case 0: return fixed[r.below(sizeof fixed / sizeof *fixed)];
+		case 1: { int n = (int)r.below(12); for (int i = 0; i < n; i++) s += (char)r.below(256); return s; }
+		case 2: { int n = (int)r.below(10); static const unsigned char b[] = { 0x41, 0x7f, 0x80, 0xbf, 0xc0, 0xc2, 0xdf, 0xe0, 0xed, 0xef, 0xf0, 0xf4, 0xf5, 0xa0, 0x90, 0x8f, 0x9f };
+			for (int i = 0; i < n; i++) s += (char)b[r.below(sizeof b)]; return s; }
+		default: return GenString(r).GetData();
+	}
 }
 
 static double GenNumber(Rng& r)
@@ -880,6 +927,9 @@ static void Generate(uint64_t seed, bool thorough)
 		if (thorough) DoTls('c', 1048576, Hex(Frame(big)), "-");
 	}
 
+	/* --- the UTF-8 sanitising step on its own */
+	for (int i = 0; i < (thorough ? 400000 : 40000); i++) DoUtf8(Hex(GenUtf8Hostile(r)));
+
 	/* --- JSON-RPC messages: DecodeMessage directly, and through ReadMessage over TLS as the receive loop does */
 	static const char *msgs[] = { "null", "42", "-1.5", "\"x\"", "\"\"", "true", "false", "[]", "[1]", "[{}]", "[null]", "{}", "{\"method\":\"x\"}",
 		"{\"jsonrpc\":\"2.0\",\"method\":\"event::Heartbeat\",\"params\":{\"timeout\":120}}", "{\"method\":null}", "{\"method\":1}",
@@ -933,6 +983,7 @@ static bool ExecLine(const std::string& line)
 	}
 	else if (w[0] == "K" && w.size() == 2) DoJsonText(w[1]);
 	else if (w[0] == "D" && w.size() == 2) DoMessage(w[1]);
+	else if (w[0] == "U" && w.size() == 2) DoUtf8(w[1]);
 	else return false;
 	return true;
 }
